@@ -57,6 +57,12 @@ def perturb(rng, edits, spec0):
     edits = copy.deepcopy(edits)
     kinds = list(KINDS)
     rng.shuffle(kinds)
+    if any(e.get('new_kind') for e in edits) and rng.random() < 0.6:
+        # aim at the type-changing NOT NULL ChangeField
+        for e in edits:
+            if e.get('new_kind') and e.get('initial') is not None:
+                e.pop('initial')
+                return 'remove_initial', edits
     for kind in kinds:
         if kind == 'drop' and edits:
             edits.pop(rng.randrange(len(edits)))
@@ -111,6 +117,23 @@ def perturb(rng, edits, spec0):
     return None
 
 
+def to_mut(h, e):
+    """Build the mutation against the version whose models let it be
+    expressed (type changes restate the attributes of the resulting field)."""
+    try:
+        return E.to_mutation(h.specs[0], e)
+    except Exception:
+        if e.get('new_kind'):
+            cur = h.specs[0]
+            for e2 in h.steps[0]:
+                if e2 is e or (e2.get('name') == e.get('name') and
+                               e2.get('new_kind')):
+                    break
+                cur = E.apply_edit(cur, e2)
+            return E.to_mutation(cur, e)
+        raise
+
+
 def reaches(psig0, tsig, mutations, app):
     """Harness-side reachability: one mutation at a time, no optimiser."""
     work = psig0.clone()
@@ -132,8 +155,44 @@ def run_case(desc):
         if len(h.steps[0]) >= 2:
             break
     edits = h.steps[0]
-    p = perturb(rng, edits, h.specs[0])
     stats = {'pairs': 1}
+    # a second app with a valid pending evolution of its own (the run as a
+    # whole is still unreachable when app1's evolution is)
+    two = rng.random() < 0.5
+    if two and edits and rng.random() < 0.5:
+        # app1's evolution is a single mutation: dropping or retargeting it
+        # leaves the app with nothing effective to run
+        edits = edits[:1]
+        h.steps[0] = edits
+        h.specs[1] = E.apply_edit(h.specs[0], edits[0])
+    # a type-changing ChangeField to NOT NULL (needs an initial value)
+    if rng.random() < 0.3:
+        cands = [(m, n, fd) for m, ms in h.specs[1].get('app1', {}).items()
+                 for n, fd in ms['fields']
+                 if fd.get('null') and fd['kind'] in ('Integer', 'Char')
+                 and not fd.get('unique')
+                 and not any(e.get('name') == n and e.get('model') == m
+                             for e in edits)]
+        if cands:
+            m, n, fd = rng.choice(sorted(cands, key=repr))
+            e = {'op': 'change_field', 'app': 'app1', 'model': m, 'name': n,
+                 'attrs': {'null': False},
+                 'new_kind': 'BigInteger' if fd['kind'] == 'Integer'
+                 else 'Text',
+                 'initial': 7 if fd['kind'] == 'Integer' else 'x',
+                 # null=False spelled out, or left to the reset of the
+                 # attributes that a type change implies
+                 'explicit_null': rng.random() < 0.6}
+            try:
+                spec1 = E.apply_edit(h.specs[1], e)
+                E.to_mutation(h.specs[1], e)
+                edits = edits + [e]
+                h.steps[0] = edits
+                h.specs[1] = spec1
+                stats['type_null_edit'] = 1
+            except Exception:
+                pass
+    p = perturb(rng, edits, h.specs[0])
     key = S.canon([h.specs, desc])
     if p is None or not edits:
         return {'key': key, 'nontrivial': False, 'items': [],
@@ -142,7 +201,7 @@ def run_case(desc):
     stats['perturb_' + kind] = 1
     # mutation objects/texts of the perturbed evolution
     try:
-        muts = [E.to_mutation(h.specs[0], e) for e in pedits]
+        muts = [to_mut(h, e) for e in pedits]
     except Exception:
         return {'key': key, 'nontrivial': False, 'items': [],
                 'stats': {'skipped_unbuildable': 1}, 'case': None}
@@ -152,11 +211,29 @@ def run_case(desc):
     c1 = S.build_models(h.specs[1])
     tsig = S.project_sig(c1, apps_order=['app1'])
     ok, why = reaches(psig0, tsig, muts, 'app1')
+    implicit_null = None
+    for e in pedits:
+        if e['op'] == 'change_field' and e.get('new_kind') and \
+                e['attrs'].get('null') is False and e.get('initial') is None:
+            # "changes a column to non-null without an initial value": to be
+            # rejected whatever the simulation says
+            implicit_null = not e.get('explicit_null')
+            if ok:
+                ok, why = False, 'nonnull_without_initial:'
     items = []
     proj = projlab.Project()
     try:
         versions = [h.app_models('app1', 0), h.app_models('app1', 1)]
         proj.write_app('app1', versions, [('e1', texts, {})], nv=[0, 1])
+        if two:
+            stats['two_apps'] = 1
+            z0 = {'Z': {'fields': [['v', {'kind': 'Integer'}]], 'meta': {}}}
+            z1 = {'Z': {'fields': [['v', {'kind': 'Integer'}],
+                                   ['x1', {'kind': 'Integer', 'null': True}]],
+                        'meta': {}}}
+            proj.write_app('app2', [z0, z1], [('e1', [
+                "AddField('Z', 'x1', models.IntegerField, null=True)"], {})],
+                nv=[0, 1])
         ev = proj.run('evolve_api', version=0, db='db.sqlite3')
         if ev.get('driver_error') or not ev['outcome']['ok']:
             return {'key': key, 'nontrivial': False, 'items': [],
@@ -174,7 +251,8 @@ def run_case(desc):
         mut_sql = [e['sql'] for e in ev['events']
                    if e['kind'] == 'sql' and e.get('mutating') and e['ok']
                    and 'django_migrations' not in e['sql']]
-        ctx = {'perturbation': kind, 'why': why.split(':')[0]}
+        ctx = {'perturbation': kind, 'why': why.split(':')[0],
+               'two_apps': two, 'implicit_null': implicit_null}
         if ok:
             stats['benign'] = 1
             if not o['ok']:
@@ -220,6 +298,7 @@ def run_case(desc):
         proj.cleanup()
     return {'key': S.canon([h.specs, texts]), 'nontrivial': not ok,
             'items': items, 'stats': stats,
-            'case': {'specs': h.specs, 'valid': [str(E.to_mutation(
-                h.specs[0], e)) for e in edits], 'perturbed': texts,
+            'case': {'specs': h.specs, 'valid': [str(to_mut(h, e))
+                                                  for e in edits],
+                     'perturbed': texts, 'two_apps': two,
                 'kind': kind, 'reaches': ok, 'why': why}}
